@@ -208,7 +208,6 @@ def _corr_case(ctx, sd, nxseg, pov, na, nr, Ndat, dt, ints=False, indep_ref=Fals
 
 # --- default values as regenerated obligations (Generated/Defaults.lean <- harness/translate_defaults.py; stream defaults[...])
 import defaults_stream  # noqa: E402
-from common import all_pre_build as pre_build  # noqa: E402,F401,F811  (runs EVERY translate_*.py)
 LEAN_MODULES += ["PyomaVerif.Props.WiringDefaultsC13"]
 THEOREMS += ["PV.WiringDefaults.C13_defaults"]
 
